@@ -40,7 +40,14 @@ CollideB == << VTrue, VInt(1), VDec(FromInt(1)), VDur(FromInt(1)), VDt(FromInt(1
                WSet(<<VInt(0), VInt(5)>>), WSet(<<VInt(5)>>), WSet(<<VInt(4), VInt(1), VInt(1)>>),
                VRec([a |-> VInt(1)]), VRec([a |-> VTrue]), VRec([b |-> VInt(1)]),
                VRec([a |-> VInt(1), b |-> VInt(2)]), VRec([a |-> VInt(2), b |-> VInt(1)]),
-               WSet(<<WSet(<<VInt(1)>>), WSet(<<VTrue>>)>>), WSet(<<WSet(<<VInt(1)>>)>>) >>
+               WSet(<<WSet(<<VInt(1)>>), WSet(<<VTrue>>)>>), WSet(<<WSet(<<VInt(1)>>)>>),
+               \* the same members inserted in different orders (colliding members are stored
+               \* in insertion order by the implementation's open addressing)
+               WSet(<<VInt(1), VTrue>>), WSet(<<VTrue, VInt(1)>>),
+               WSet(<<VFalse, VInt(0), VDec(FromInt(0))>>), WSet(<<VDec(FromInt(0)), VInt(0), VFalse>>), WSet(<<VInt(0), VDec(FromInt(0)), VFalse>>),
+               WSet(<<VInt(1), VInt(2), VTrue>>), WSet(<<VInt(2), VTrue, VInt(1)>>), WSet(<<VTrue, VInt(2), VInt(1), VInt(2)>>),
+               WSet(<<WSet(<<VInt(1), VTrue>>)>>), WSet(<<WSet(<<VTrue, VInt(1)>>)>>),
+               VRec([s |-> WSet(<<VFalse, VInt(0)>>)]), VRec([s |-> WSet(<<VInt(0), VFalse>>)]) >>
 
 EntB == << U("a"), U("b"), U("zz"), G("g"), G("h"), G("top"), A("view"), A("edit"), A("all") >>
 AttrB == << "n", "s", "opt", "r", "ss", "e", "x", "zz" >>
